@@ -2,7 +2,7 @@
    Each is closed by [exact <lemma>] (or a two-line combination of lemmas) and followed by Print Assumptions.
    PD's behaviour is an explicit hypothesis:  pd : nat -> Z  is the sequence of timestamps PD hands out,
    pd_strict says it is strictly increasing. *)
-From Verif Require Import Oracle.Model Oracle.ModelSys Oracle.ModelVal Oracle.ModelInt Oracle.ProofsArith Oracle.ProofsSys Oracle.ProofsVal Oracle.ModelArr Oracle.ProofsInt Oracle.ProofsSeq Oracle.ProofsFresh Oracle.ProofsArr.
+From Verif Require Import Oracle.Model Oracle.ModelSys Oracle.ModelVal Oracle.ModelInt Oracle.ProofsArith Oracle.ProofsSys Oracle.ProofsVal Oracle.ModelArr Oracle.ProofsInt Oracle.ProofsSeq Oracle.ProofsFresh Oracle.ProofsArr Oracle.ProofsTop.
 From Coq Require Import Lia.
 Open Scope Z_scope.
 
@@ -11,15 +11,12 @@ Theorem C13_compose_extract : forall p l, 0 <= p < two45 -> 0 <= l < two18 ->
   extract_physical (compose_ts p l) = p /\ extract_logical (compose_ts p l) = l /\
   (forall p' l', 0 <= p' < two45 -> 0 <= l' < two18 ->
      (compose_ts p l < compose_ts p' l' <-> (p < p' \/ (p = p' /\ l < l')))).
-Proof.
-  intros p l Hp Hl. destruct (compose_extract p l (conj Hp Hl)) as [A B]. repeat split; auto;
-  apply (compose_monotone p l p' l' (conj Hp Hl) (conj H H0)).
-Qed.
+Proof. exact T_C13_compose_extract. Qed.
 Print Assumptions C13_compose_extract.
 
 Theorem C13_extract_compose : forall ts, 0 <= ts < two63 ->
   compose_ts (extract_physical ts) (extract_logical ts) = ts.
-Proof. intros ts H. exact (proj1 (extract_compose ts H)). Qed.
+Proof. exact T_C13_extract_compose. Qed.
 Print Assumptions C13_extract_compose.
 
 (* --- GetTimestamp returns exactly what PD handed to this call; with PD strictly increasing, a call that
@@ -31,13 +28,7 @@ Theorem C13_passthrough : forall (pd : nat -> Z),
     nth_error (thr s) a = Some tha -> nth_error (thr s) b = Some thb ->
     tpc tha = PDone (Some va) -> tpc thb = PDone (Some vb) ->
     va = pd (tidx tha) /\ (tidx tha < issued s)%nat /\ ((trett tha < tinvt thb)%nat -> va < vb).
-Proof.
-  intros pd strict n es a b tha thb va vb s Ha Hb Hda Hdb.
-  destruct (both_run pd es _ (inv_init pd n) (tinv_init n)) as [I TI].
-  pose proof I as [_ It]. destruct (It _ _ Ha) as [G _]. rewrite Hda in G. destruct (G va eq_refl) as [E [L _]].
-  repeat split; auto. intros Hlt.
-  destruct (realtime_index pd _ a b tha thb va vb I TI Ha Hb Hda Hdb Hlt) as [Ea [Eb Hi]]. rewrite Ea, Eb. auto.
-Qed.
+Proof. exact T_C13_passthrough. Qed.
 Print Assumptions C13_passthrough.
 
 (* --- setLastTS (Load / compare / CAS loop), n concurrent calls, any interleaving: the published value never
@@ -47,12 +38,7 @@ Theorem C13_lastts_monotone : forall (pd : nat -> Z) n es1 es2,
   let s2 := run pd s1 es2 in
   ole (lowres s1) (lowres s2) /\
   (forall v, lowres s2 = Some v -> exists i, (i < issued s2)%nat /\ v = pd i).
-Proof.
-  intros pd n es1 es2 s1 s2.
-  assert (I1 : Inv pd s1) by (apply inv_run, inv_init).
-  split; [exact (lr_run pd es2 s1 I1)|].
-  intros v H. apply (lr_issued pd s2 v); [apply inv_run; exact I1|exact H].
-Qed.
+Proof. exact T_C13_lastts_monotone. Qed.
 Print Assumptions C13_lastts_monotone.
 
 (* --- GetLowResolutionTimestamp (one Load of the published record): never decreases along a run and never
@@ -64,12 +50,7 @@ Theorem C13_lowres_bounds : forall (pd : nat -> Z),
     let s2 := run pd s1 es2 in
     lowres s1 = Some v1 -> lowres s2 = Some v2 ->
     v1 <= v2 /\ v2 <= pd (issued s2 - 1)%nat.
-Proof.
-  intros pd strict n es1 es2 v1 v2 s1 s2 H1 H2.
-  destruct (C13_lastts_monotone pd n es1 es2) as [M B]. fold s1 s2 in M, B.
-  rewrite H1, H2 in M. split; [exact M|].
-  destruct (B v2 H2) as [i [Hi E]]. subst v2. apply (pd_mono pd strict). lia.
-Qed.
+Proof. exact T_C13_lowres_bounds. Qed.
 Print Assumptions C13_lowres_bounds.
 
 (* --- IsExpired <-> UntilExpired <= 0, the int64 conversion of TTL and the int64 additions written out.
@@ -112,11 +93,7 @@ Print Assumptions C13_expiry_wide_ttl_refuted.
 Theorem C13_commit_wait : forall bound max_sleep_ns fuel script,
   (forall ts c, commit_wait bound max_sleep_ns fuel script = (CwOk ts, c) -> bound < ts /\ In (Some ts) script) /\
   (forall r c, commit_wait bound max_sleep_ns fuel script = (r, c) -> (c <= 1 + fuel)%nat).
-Proof.
-  intros bound ms fuel script. split.
-  - intros ts c H. exact (commit_wait_ok bound ms fuel script ts c H).
-  - intros r c H. exact (commit_wait_calls bound ms fuel script r c H).
-Qed.
+Proof. exact T_C13_commit_wait. Qed.
 Print Assumptions C13_commit_wait.
 
 (* --- ValidateReadTS + single flight, any number of validators, any schedule, any order of PD answers --- *)
@@ -157,7 +134,7 @@ Print Assumptions C13_validate_no_retry_refuted.
 Theorem C13_validate_cancel_isolated : forall (pd : nat -> Z) (u : nat) retry n es,
   Forall (fun e => e <> EFlightFail /\ e <> ECancel u) es ->
   voutcome_of (vrun pd retry (init_vsys n) es) u <> Some OErr.
-Proof. intros pd u retry n es H. exact (cancel_isolated pd u retry n es H). Qed.
+Proof. exact T_C13_validate_cancel_isolated. Qed.
 Print Assumptions C13_validate_cancel_isolated.
 
 (* --- first use of a txn scope: init_sys n has NO entry for the scope; every caller runs lastTSMap.Load and, on a
@@ -176,13 +153,7 @@ Theorem C13_fresh_scope : forall (pd : nat -> Z) n es1 es2,
      (cell s1 = None -> cell (step pd s1 (Ev t)) = Some (t, ts)) /\
      (forall c, cell s1 = Some c -> cell (step pd s1 (Ev t)) = Some c) /\
      exists th', nth_error (thr (step pd s1 (Ev t))) t = Some th' /\ tpc th' = PLoad ts).
-Proof.
-  intros pd n es1 es2 s1 s2. destruct (C13_lastts_monotone pd n es1 es2) as [M B]. fold s1 s2 in M, B.
-  split; [reflexivity|]. split; [|split; [exact M|split; [exact B|]]].
-  - unfold lowres. intros H1 H2. apply (cell_stays_run pd es2 s1); [destruct (cell s1) as [[o v]|]; congruence|].
-    fold s2. destruct (cell s2) as [[o v]|]; congruence.
-  - intros t th ts Ht Hp. exact (load_or_store_spec pd s1 t th ts Ht Hp).
-Qed.
+Proof. exact T_C13_fresh_scope. Qed.
 Print Assumptions C13_fresh_scope.
 
 (* publishing the first timestamp of a scope with Store + return instead (two first callers, both miss, the newer
@@ -205,12 +176,7 @@ Theorem C13_refresher : forall (pd : nat -> Z) n es1 es2,
   let s2 := fold_left (step_rstore pd (fun _ => false)) es2 s1 in
   ole (lowres s1) (lowres s2) /\
   (forall v, lowres s2 = Some v -> exists i, (i < issued s2)%nat /\ v = pd i).
-Proof.
-  intros pd n es1 es2.
-  assert (E : forall es s, fold_left (step_rstore pd (fun _ => false)) es s = run pd s es).
-  { induction es as [|e es IH]; intros s; cbn; auto. rewrite step_rstore_none. apply IH. }
-  cbv zeta. rewrite !E. exact (C13_lastts_monotone pd n es1 es2).
-Qed.
+Proof. exact T_C13_refresher. Qed.
 Print Assumptions C13_refresher.
 
 Theorem C13_refresher_store_refuted :
@@ -232,11 +198,7 @@ Theorem C13_arrival_monotone : forall (pd : nat -> Z) (pd_ns : Z -> Z),
     let s1 := arun pd pd_ns (init_asys n w0) es1 in
     let s2 := arun pd pd_ns s1 es2 in
     rec_le (arec s1) (arec s2) /\ wall s1 <= wall s2.
-Proof.
-  intros pd pd_ns mono n w0 es1 es2 s1 s2. split.
-  - exact (arec_run pd pd_ns mono es2 s1 (ainv_run pd pd_ns mono es1 _ (ainv_init pd_ns n w0))).
-  - exact (wall_run pd pd_ns mono es2 s1).
-Qed.
+Proof. exact T_C13_arrival_monotone. Qed.
 Print Assumptions C13_arrival_monotone.
 
 (* the future-staleness guard over any interleaving: the published record arrived in the past, its timestamp had been
@@ -251,12 +213,7 @@ Theorem C13_stale_not_future : forall (pd : nat -> Z) (pd_ns : Z -> Z),
     forall now prev r, stale_dom l a now prev -> pd_ns a + (now - a) <= pd_ns now ->
       stale_ts l a now prev = Some r ->
       extract_physical r <= pd_ns now / 1000000 - prev * 1000 /\ extract_logical r = 0.
-Proof.
-  intros pd pd_ns mono n w0 es l a s H.
-  destruct (arec_good pd_ns s l a (ainv_run pd pd_ns mono es _ (ainv_init pd_ns n w0)) H) as [G1 G2].
-  split; [exact G2|split; [exact G1|]].
-  intros now prev r D Hrate Hs. exact (stale_not_future pd_ns l a now prev r D G1 Hrate Hs).
-Qed.
+Proof. exact T_C13_stale_not_future. Qed.
 Print Assumptions C13_stale_not_future.
 
 (* --- the call-level model refines the CAS-level system: running the calls one after the other (each thread gets
@@ -271,39 +228,57 @@ Proof. exact seq_refines. Qed.
 Print Assumptions C13_setlast_refines.
 
 (* --- GetLowResolutionTimestamp over interval changes: the oracle as a whole = the GetTimestamp/setLastTS system next
-       to the interval record; SetLowResolutionTimestampUpdateInterval, the adaptive transitions and the staleness
-       adjustment may be interleaved anywhere: the cached value still never decreases and never exceeds the largest
-       timestamp PD issued, and the interval record keeps its invariant --- *)
+       to the exact updateTS loop state (interval record, the loop's currentInterval, the shrink channel);
+       SetLowResolutionTimestampUpdateInterval, ticks, received shrink requests and concurrent staleness adjustments may
+       be interleaved anywhere: the cached value still never decreases and never exceeds the largest timestamp PD
+       issued, and the loop keeps its invariant --- *)
 Theorem C13_lowres_bounds_intervals : forall (pd : nat -> Z),
   (forall i j, (i < j)%nat -> pd i < pd j) ->
-  forall n i0 es1 es2 v1 v2, int_inv i0 ->
-    let s1 := prun pd (init_sys n, i0) es1 in
+  forall n l0 es1 es2 v1 v2, linv l0 ->
+    let s1 := prun pd (init_sys n, l0) es1 in
     let s2 := prun pd s1 es2 in
-    int_inv (snd s2) /\
+    linv (snd s2) /\
     (lowres (fst s1) = Some v1 -> lowres (fst s2) = Some v2 -> v1 <= v2 /\ v2 <= pd (issued (fst s2) - 1)%nat).
-Proof.
-  intros pd strict n i0 es1 es2 v1 v2 I s1 s2.
-  destruct (prun_proj pd es1 (init_sys n, i0)) as [A1 B1]. destruct (prun_proj pd es2 s1) as [A2 B2].
-  fold s1 in A1, B1. fold s2 in A2, B2. cbn [fst snd] in A1, B1. split.
-  - rewrite B2, B1. apply irun_inv, irun_inv, I.
-  - rewrite A2, A1. apply (C13_lowres_bounds pd strict n (sys_events es1) (sys_events es2) v1 v2).
-Qed.
+Proof. exact T_C13_lowres_bounds_intervals. Qed.
 Print Assumptions C13_lowres_bounds_intervals.
 
-(* --- the adaptive update interval: for every sequence of ticks, shrink requests, configuration changes and staleness
-       adjustments the actual interval stays within [min(500ms, configured), configured]; a required staleness below
-       the current interval shrinks it in one step --- *)
-Theorem C13_interval_bounds : forall ops s, int_inv s -> int_inv (fold_left istep ops s).
-Proof. exact irun_inv. Qed.
+(* --- the adaptive update interval on the EXACT updateTS loop (ModelInt.lstep: ticker case, shrink-channel case with
+       its three clock readings and the currentInterval comparison, SetLowResolutionTimestampUpdateInterval from any
+       goroutine, non-blocking sends of concurrent staleness adjustments into the capacity-1 channel): for every
+       sequence of these events from any configured interval, 0 < configured, min(500ms, configured) <= actual <=
+       configured, and every request waiting in the channel is >= 1ms --- *)
+Theorem C13_interval_bounds : forall c t0 ops, 0 < c ->
+  let s := fold_left lstep ops (init_lstate c t0) in
+  0 < cfg (li s) /\ Z.min min_interval (cfg (li s)) <= ada (li s) <= cfg (li s) /\
+  (forall r, lch s = Some r -> 1000000 <= r).
+Proof. exact T_C13_interval_bounds. Qed.
 Print Assumptions C13_interval_bounds.
 
-Theorem C13_interval_shrinks : forall s now req,
+(* a request waiting in the channel that is below the current interval shrinks it when the loop receives it — in that
+   one step, whatever the three clock readings; the loop's currentInterval follows, the channel is free again; and a
+   tick re-synchronises currentInterval with the record *)
+Theorem C13_interval_shrinks : forall s req now1 now2 now3,
+  linv s -> lch s = Some req -> min_interval < cfg (li s) -> req < ada (li s) -> min_interval < ada (li s) ->
+  last_tick (li s) <= now1 -> now1 <= now2 -> now2 <= now3 ->
+  let s' := lstep s (LRecv now1 now2 now3) in
+  ada (li s') = Z.max (req - shrink_preserve) min_interval /\ ada (li s') < ada (li s) /\ min_interval <= ada (li s') /\
+  istt (li s') = ISAdapting /\ lcur s' = ada (li s') /\ lch s' = None.
+Proof. exact lrecv_shrinks. Qed.
+Print Assumptions C13_interval_shrinks.
+
+Theorem C13_interval_tick_syncs : forall s now, linv s -> last_tick (li s) <= now ->
+  lcur (lstep s (LTick now)) = ada (li (lstep s (LTick now))) /\ last_tick (li (lstep s (LTick now))) = now.
+Proof. exact ltick_syncs. Qed.
+Print Assumptions C13_interval_tick_syncs.
+
+(* the function nextUpdateInterval itself (what the differential drives through the in-package export) *)
+Theorem C13_next_interval_shrinks : forall s now req,
   int_inv s -> min_interval < cfg s -> req <> 0 -> req < ada s -> min_interval < ada s ->
   let s' := fst (next_interval s now req) in
   ada s' = Z.max (req - shrink_preserve) min_interval /\ ada s' < ada s /\ min_interval <= ada s' /\ istt s' = ISAdapting /\
   snd (next_interval s now req) = ada s'.
 Proof. exact next_interval_shrinks. Qed.
-Print Assumptions C13_interval_shrinks.
+Print Assumptions C13_next_interval_shrinks.
 
 (* --- GetStaleTimestamp (domain: prev < 2^33 s, physical < 2^43 ms, arrival <= now): error exactly when the cached
        physical second is not beyond prevSecond; monotone in the clock; not beyond the cached timestamp when the
@@ -314,12 +289,7 @@ Theorem C13_stale_ts : forall tso arr now prev,
      extract_logical r = 0 /\
      (now - arr <= prev * 1000000000 -> r <= tso) /\
      (forall now' r', stale_dom tso arr now' prev -> now <= now' -> stale_ts tso arr now' prev = Some r' -> r <= r')).
-Proof.
-  intros tso arr now prev. split; [apply stale_guard|]. intros r D H. repeat split.
-  - exact (proj2 (proj2 (proj2 (stale_value _ _ _ _ _ D H)))).
-  - intros Hage. exact (stale_le_last _ _ _ _ _ D Hage H).
-  - intros now' r' D' Hle H'. exact (stale_monotone _ _ _ _ _ _ _ D D' Hle H H').
-Qed.
+Proof. exact T_C13_stale_ts. Qed.
 Print Assumptions C13_stale_ts.
 
 Theorem C13_stale_beyond_last_refuted : exists tso arr now prev r,
@@ -340,18 +310,14 @@ Theorem C13_stale_not_future_call_level : forall (pd_ns : Z -> Z),
   forall now prev r, stale_dom l a now prev -> pd_ns a + (now - a) <= pd_ns now ->
     stale_ts l a now prev = Some r ->
     extract_physical r <= pd_ns now / 1000000 - prev * 1000 /\ extract_logical r = 0.
-Proof.
-  intros pd_ns mono calls t0 F S l a H.
-  destruct (arrival_run pd_ns mono calls None t0 Logic.I F S) as [R _]. cbv zeta in R. rewrite H in R. destruct R as [R1 R2].
-  split; [exact R2|]. intros now prev r D Hrate Hs. exact (stale_not_future pd_ns l a now prev r D R1 Hrate Hs).
-Qed.
+Proof. exact T_C13_stale_not_future_call_level. Qed.
 Print Assumptions C13_stale_not_future_call_level.
 
 (* the arrival of the published record never goes back (call level) *)
 Theorem C13_arrival_monotone_call_level : forall (pd_ns : Z -> Z), (forall a b, a <= b -> pd_ns a <= pd_ns b) -> forall calls t0 r,
   rec_ok pd_ns r t0 -> Forall (call_ok pd_ns) calls -> clock_sorted t0 calls ->
   rec_le r (fold_left (fun r c => set_last_arr r (fst c) (snd c)) calls r).
-Proof. intros pd_ns mono calls t0 r R F S. exact (proj2 (arrival_run pd_ns mono calls r t0 R F S)). Qed.
+Proof. exact T_C13_arrival_monotone_call_level. Qed.
 Print Assumptions C13_arrival_monotone_call_level.
 
 (* --- local.go: the local oracle is strictly increasing while its clock does not go backwards and fewer than
@@ -404,6 +370,16 @@ Proof. vm_compute. split; reflexivity. Qed.
 Example ex_interval : let s0 := mkI 2000000000 2000000000 0 0 ISNormal in
   ada (fst (next_interval s0 1000000000 800000000)) = 700000000 /\ istt (fst (next_interval s0 1000000000 800000000)) = ISAdapting.
 Proof. vm_compute. split; reflexivity. Qed.
+(* a validator's adjustment queues a 800ms request, a second one is dropped (channel full), the loop receives it *)
+Example ex_loop :
+  let s0 := init_lstate 2000000000 0 in
+  let now := 1700000000000000000 in
+  let cur := compose_ts 1700000000000 0 in
+  let s1 := lstep s0 (LAdjust (compose_ts (1700000000000 - 800) 0) cur now) in
+  let s2 := lstep s1 (LAdjust (compose_ts (1700000000000 - 900) 0) cur now) in
+  let s3 := lstep s2 (LRecv now now now) in
+  lch s1 = Some 800000000 /\ lch s2 = Some 800000000 /\ ada (li s3) = 700000000 /\ lcur s3 = 700000000 /\ lch s3 = None.
+Proof. vm_compute. repeat split; reflexivity. Qed.
 Example ex_stale : stale_ts (compose_ts 1700000000000 7) 5000000000 5250000000 10 = Some (compose_ts 1699999990250 0).
 Proof. vm_compute. reflexivity. Qed.
 (* the arrival rule at work: thread 1 (newer ts 11) read the clock at 5, thread 0 (ts 10) at 9 and installed first *)
